@@ -296,9 +296,18 @@ class TreeTranslator:
                 return f"(.leafTest {self.seq(st.body)})"
             c = self._norm(self.cond(st.test))
             # the structure block: the first `if cls.structure is not None:` after flattening whose body touches no storage
-            if c == ".hasStructure" and self.flattened and not st.orelse and self._no_storage(st.body) and "pytree_memo" in _u(st) \
-                    and not any(isinstance(n, (ast.For, ast.While)) and any(isinstance(x, ast.Call) and _callee(x) in STORAGE_CALLS for x in ast.walk(n)) for n in st.body):
-                return "(.ite .hasStructure .structBlock .skip)"
+            if c == ".hasStructure" and self.flattened and not st.orelse and "pytree_memo" in _u(st) and not self.loops:
+                body = _strip(st.body)
+                # the block must look the structure memo up AGAIN (flattening may have rolled the context back, which swaps
+                # fresh dictionaries in): `_, _, pytree_memo, _ = get_shape_memo()` first, no other storage call after it
+                first = body[0] if body else None
+                reread = isinstance(first, ast.Assign) and len(first.targets) == 1 and isinstance(first.targets[0], ast.Tuple) and len(first.targets[0].elts) == 4 \
+                    and _u(first.targets[0].elts[2]) == "pytree_memo" and _u(first.value) == "get_shape_memo()"
+                if reread and self._no_storage(body[1:]):
+                    return "(.ite .hasStructure .structBlock .skip)"
+                if self._no_storage(body):
+                    self.notes.append("the structure block uses the memo it was handed before flattening (stale after a rollback while flattening)")
+                    return "(.ite .hasStructure .unknown .skip)"
             old = self.guard
             if c == ".hasStructure":
                 self.guard = True
